@@ -2292,17 +2292,24 @@ impl Drop for DB {
         };
 
         log::info!("Terminating the compaction worker background thread.");
-        if let Some(compaction_worker_join_handle) = Arc::get_mut(&mut self.compaction_worker)
-            .unwrap()
-            .stop_worker_thread()
-        {
-            if let Err(thread_panic_val) = compaction_worker_join_handle.join() {
-                log::error!(
-                    "The compaction worker thread panicked while exiting. Unwinding the \
-                    stack with the panicked value."
-                );
+        match Arc::get_mut(&mut self.compaction_worker) {
+            Some(compaction_worker) => {
+                if let Some(compaction_worker_join_handle) = compaction_worker.stop_worker_thread()
+                {
+                    if let Err(thread_panic_val) = compaction_worker_join_handle.join() {
+                        log::error!(
+                            "The compaction worker thread panicked while exiting. Unwinding the \
+                            stack with the panicked value."
+                        );
 
-                panic::resume_unwind(thread_panic_val);
+                        panic::resume_unwind(thread_panic_val);
+                    }
+                }
+            }
+            None => {
+                // Iterators created from this database still hold a reference to the worker. Ask
+                // the thread to exit; it cannot be joined through a shared reference.
+                self.compaction_worker.schedule_task(TaskKind::Terminate);
             }
         }
     }
